@@ -97,10 +97,25 @@ def rand_path(rng):
 
 
 def gen(shard, rng, tier):
+    # pools: the same seed with another path and the same path with another seed inside one server process
+    pool_seed, pool_path = [], []
     for _ in range(shard["count"]):
-        n = rng.choice(SEED_LENS) if rng.random() < 0.5 else rng.choice([16, 32, 64, 64, 64])
-        seed = rand_bytes(rng, n)
-        if rng.random() < 0.05:
-            seed = bytes(n) if rng.random() < 0.5 else b"\xff" * n
-        comps = rand_path(rng)
+        if pool_seed and rng.random() < 0.3:
+            seed = rng.choice(pool_seed)
+        else:
+            n = rng.choice(SEED_LENS) if rng.random() < 0.5 else rng.choice([16, 32, 64, 64, 64])
+            seed = rand_bytes(rng, n)
+            if rng.random() < 0.05:
+                seed = bytes(n) if rng.random() < 0.5 else b"\xff" * n
+            pool_seed.append(seed)
+            del pool_seed[:-6]
+        if pool_path and rng.random() < 0.3:
+            comps = rng.choice(pool_path)
+            if rng.random() < 0.5 and comps:
+                # a sibling: same parent, last index changed / hardened flag flipped
+                comps = comps[:-1] + [(rand_index(rng), comps[-1][1]) if rng.random() < 0.5 else (comps[-1][0], not comps[-1][1])]
+        else:
+            comps = rand_path(rng)
+            pool_path.append(comps)
+            del pool_path[:-6]
         yield from both(lib_case("derive", {"op": "hdk.derive", "seed": seed.hex(), "path": eth.format_path(comps)}, {"cls": "derive"}))
